@@ -109,6 +109,12 @@ def main():
         calibration_map=b.calibration_map, config=cpp_cfg())
     d["cpp_model_header"] = sha("\n".join(cpp.header_from_ast(generator=gm)))
     d["cpp_model_source"] = sha("\n".join(cpp.source_from_ast(generator=gm)))
+    gn = cpp._generate_ekf_function_bodies(
+        header_location="generated/gen.h", namespace=None, state_model=b.ui_model,
+        process_noise=b.process_noise, sensor_models=b.sensor_models, sensor_noises=b.sensor_noises,
+        calibration_map=b.calibration_map, config=dict(cfg))
+    d["cpp_ekf_header_without_namespace"] = sha("\n".join(cpp.header_from_ast(generator=gn)))
+    d["cpp_ekf_source_without_namespace"] = sha("\n".join(cpp.source_from_ast(generator=gn)))
     # files written by the entry point
     tmp = tempfile.mkdtemp(prefix="vf_c15_")
     try:
